@@ -68,8 +68,11 @@ pub fn check_state(m: &mut Matcher, vocab: &Vocab, ctx: &mut Ctx, tag: &dyn Fn()
     // allow_invalid_utf8; see known finding C01/marker-byte-leak)
     let marker_tok = vocab.trie().token_id(&[0xFF]);
     let marker_ok = marker_tok.is_some_and(|mt| m.clone().consume_token(mt).is_ok());
+    // grammars compiled in byte mode (allow_invalid_utf8) leak the marker byte in the same way, also when the
+    // vocabulary has no bare 0xFF token to probe with
+    let byte_mode = tag().contains("\"allow_invalid_utf8\": true");
     let leak_key = |t: u32, dflt: &'static str| -> &'static str {
-        if marker_ok && vocab.bytes(t).first().map_or(true, |b| *b == 0xFF) {
+        if (marker_ok || byte_mode) && vocab.bytes(t).first().map_or(true, |b| *b == 0xFF) {
             "C01/marker-byte-leak-under-byte-level-negation"
         } else {
             dflt
